@@ -256,9 +256,9 @@ Fixpoint vlines_bytes_c (ls : list vline) : res str :=
 (* item.InlineStyle != nil { ... item.Style != nil && item.Style.InlineStyle != nil ... item.Region != nil } *)
 Definition vitem_settings_c (it : vitem) : res str :=
   if is_some (vi_set it) then
-    do s <- deref (vi_set it) 591;
-    do fb <- (if is_some (vi_fb it) then deref (vi_fb it) 594 else Ok vset0);
-    do rg <- (if is_some (vi_region it) then do id <- deref (vi_region it) 614; Ok ([32] ++ k_regionk ++ [58] ++ id) else Ok []);
+    do s <- deref (vi_set it) 588;
+    do fb <- (if is_some (vi_fb it) then deref (vi_fb it) 591 else Ok vset0);
+    do rg <- (if is_some (vi_region it) then do id <- deref (vi_region it) 611; Ok ([32] ++ k_regionk ++ [58] ++ id) else Ok []);
     Ok (setting k_align (vs_align s) (vs_align fb) ++ setting k_line (vs_line s) (vs_line fb) ++
         setting k_position (vs_position s) (vs_position fb) ++ rg ++
         setting k_size (vs_size s) (vs_size fb) ++ setting k_vertical (vs_vertical s) (vs_vertical fb))
@@ -310,7 +310,7 @@ Definition write_vtt_c (d : vdoc) (style_order region_order : list str) : res st
   if Nat.eqb (length (vd_items d)) 0 then Err ENothingToWrite
   else
     (* s.Metadata != nil && s.Metadata.WebVTTTimestampMap != nil *)
-    do ts <- (if is_some (vd_tsmap d) then do m <- deref (vd_tsmap d) 482; Ok ([10] ++ tsmap_string m) else Ok []);
+    do ts <- (if is_some (vd_tsmap d) then do m <- deref (vd_tsmap d) 483; Ok ([10] ++ tsmap_string m) else Ok []);
     do styles <- styles_c d (ssort style_order);
     let rids := ssort (map (fun k => match aget k (vd_regions d) with Some rg => rg_id rg | None => k end) region_order) in
     do regs <- regions_bytes_c d rids;
